@@ -96,7 +96,7 @@ PROPS = {
         "rule": ("pattern strings of length 0-12 over letters, upper case, non-ASCII (cased, uncased, folding-lowercase, title case), every kind of whitespace, "
                  "backslash and the four markers, all CaseMatching x Normalization; reference grammar + ASCII->non-ASCII substitution metamorphic check + "
                  "escape round trip + reparse on a reused object; distinct_nontrivial = distinct pattern strings yielding at least one atom"),
-        "require": {"any": {"c14.parsed": 1000, "c14.metamorphic": 500, "c14.escape-roundtrip": 1000, "c14.reparsed": 1000, "c14.sweep-parsed": 100000, "c14.parsed-with-multi-code-point-clusters": 1000}},
+        "require": {"any": {"c14.parsed": 1000, "c14.metamorphic": 500, "c14.escape-roundtrip": 1000, "c14.reparsed": 1000, "c14.sweep-parsed": 100000, "c14.parsed-with-multi-code-point-clusters": 1000, "c14.parsed-with-more-than-1024-blanks": 20}},
         "assumptions": ["reference grammar pinned to the repository's documented ASCII behaviour where the property text is silent (DESIGN.md C14)",
                         "upper case judged only where Unicode Uppercase and chars::is_upper_case agree"],
     },
@@ -336,7 +336,7 @@ PROPS["C09"] = {
              "pushes - under Miri (many seeds, raised preemption rate, weak memory emulation) and ThreadSanitizer (16 threads, repeated 5x). Nucleo level: injector threads + ticking thread + "
              "pool threads with pattern edits (rescoring, tie-breaking comparator), update_config, restart and drop - Miri (tree borrows flags, see DESIGN) and ThreadSanitizer. "
              "distinct_nontrivial = executions (seed x shard x history); every Miri process uses its own scheduler seed"),
-    "require": {"any": {"race-histories": 10, "race.reads-some": 1000, "race.reads-none": 100}},
+    "require": {"any": {"race-histories": 10, "race.reads-some": 1000, "race.reads-none": 100, "race.histories-with-more-than-64-pool-threads": 3}},
     "assumptions": ["reorderings neither tool produced are not covered", "third-party-only sanitizer stacks are listed, not judged"],
 }
 
